@@ -53,6 +53,9 @@ META = dict(
         "(available=False)"],
 )
 
+META["rule"] += (
+    " " + 'Added after the third round: spawn-pool variants with nsi=False, with and without source / target sets.')
+
 MEASURES = [
     ("newman_betweenness", {}),
     ("nsi_newman_betweenness", {}),
